@@ -14,9 +14,7 @@ package spec_2022
 //@   ensures result2 == nil && result0.Data == nil && result0.Interest != nil ==> result0.Interest.NameV != nil
 //@   ensures result2 == nil && result0.Data == nil && result0.Interest == nil ==> result0.LpPacket.Fragment != nil
 
-//@ func checkInterest
-//@   requires val != nil && context != nil
-//@   ensures result == nil ==> val.NameV != nil
+// checkInterest: see zz_verif_make.go (C12, parameters-digest clause)
 
 //@ func (Spec).ReadData
 //@   invariant reader == nil || enc.rdWfB(reader)
